@@ -24,7 +24,7 @@ META = {
 
 SAFE = {
     ("autobahn.websocket.protocol.parseHttpHeader", "raw[0]"):
-        "callers pass self.data[:end_of_header + 4] with end_of_header >= 0, a non-empty string; splitlines() of it has >= 1 line",
+        "callers pass self.data[:end_of_header + 4] with end_of_header >= 0, a non-empty string; split() with a separator never returns an empty list",
     ("autobahn.websocket.protocol.WebSocketProtocol._parseExtensionsHeader", "p[0]"):
         "p = [x.strip() for x in p.split('=')] : split with a separator never returns an empty list",
     ("autobahn.websocket.protocol._is_same_origin", "raise ValueError(\"'websocket_origin' must be a 3-tuple\")"):
@@ -115,8 +115,8 @@ def rule_server(ctx):
         vs = f"{rl}[2].strip().split('/')"
     key = name_for(fn, "self.http_headers['sec-websocket-key'].strip()", canon)
     version = name_for(fn, "int(self.http_headers['sec-websocket-version'])", canon)
-    up_flag, up_ok = _token_flag(fn, g, mf, "upgrade", "websocket")
-    co_flag, co_ok = _token_flag(fn, g, mf, "connection", "upgrade")
+    # "the Upgrade / Connection header lists the token" and the whole origin policy are decided cell-wise (c07_cells): how the membership
+    # is computed (flag loop, any(), all(), helper) and how the origin branches are arranged has no fixed shape
     obligations = [
         ("request line has exactly 3 parts", [("eq", f"len({rl})", ("c", 3), True)]),
         ("method is GET", [("eq", f"{rl}[0].strip()", ("c", "GET"), True)]),
@@ -125,9 +125,7 @@ def rule_server(ctx):
         ("Host header present", [present("host")]),
         ("Host header single", [single("host")]),
         ("Upgrade header present", [present("upgrade")]),
-        ("Upgrade header contains websocket", [("truth", up_flag or "?", None, True)]),
         ("Connection header present", [present("connection")]),
-        ("Connection header contains upgrade", [("truth", co_flag or "?", None, True)]),
         ("Sec-WebSocket-Version present", [present("sec-websocket-version")]),
         ("Sec-WebSocket-Version single", [single("sec-websocket-version")]),
         ("Sec-WebSocket-Version is a configured version", [("in", version, ("e", "self.versions"), True)]),
@@ -141,9 +139,6 @@ def rule_server(ctx):
     # the values the obligations talk about are derived from the received request (roles found by their definitions, not by name)
     ctx.ob("server: the request line is split into its parts", True, "", fn.loc())
     ctx.ob("server: key is the Sec-WebSocket-Key header", key != "" , "", fn.loc())
-    for flag, okf, header, token in ((up_flag, up_ok, "upgrade", "websocket"), (co_flag, co_ok, "connection", "upgrade")):
-        ctx.ob(f"server: a flag is set only for a '{token}' token of the {header} header (case-insensitive, comma list)", flag is not None and okf,
-               f"no sound computation of \"{header} header contains {token}\" found", fn.loc())
     # key alphabet
     loops = [n for n in g.stmt_nodes() if n.kind == "for" and norm.text(n.ast.iter) == f"{key}[:-2]"]
     ok = False
@@ -190,33 +185,6 @@ def rule_server(ctx):
     ctx.ob("server: client's protocol list kept in the order sent",
            any("self.http_headers['sec-websocket-protocol']" in canon_text(fn, n.ast.value, canon) and "split(',')" in canon_text(fn, n.ast.value, canon) for n in sp),
            "websocket_protocols no longer the parsed header list", fn.loc())
-    # origin policy
-    oi = [n for n in g.stmt_nodes() if n.kind == "test" and norm.atoms(n.ast, True, res) == [("truth", "origin_is_allowed", None, False)]]
-    ho = [n for n in g.stmt_nodes() if n.kind == "test" and norm.atoms(n.ast, True, res) == [("truth", "have_origin", None, True)]]
-    ok = len(oi) == 1 and len(ho) == 1 and (oi[0], True) in _fail_return_edges(g)
-    if ok:
-        tsucc = [m for m, lab in ho[0].succ if lab and lab[0] == "T"]
-        ok = all(not g.path_exists(m, A, avoid=lambda x: x is oi[0]) or m is oi[0] for m in tsucc)
-    ctx.ob("server: with an Origin header, acceptance requires origin_is_allowed", ok, "origin check can be bypassed", fn.loc())
-    vals = [n for n in g.stmt_nodes() if n.kind == "stmt" and isinstance(n.ast, ast.Assign) and norm.text(n.ast.targets[0]) == "origin_is_allowed"]
-    okv = len(vals) == 2
-    for n in vals:
-        v = n.ast.value
-        if isinstance(v, ast.Constant) and v.value is True:
-            okv = okv and _has(mf.at(n), ("eq", "origin_tuple", ("c", "null"), True), ("truth", "self.factory.allowNullOrigin", None, True))
-        elif isinstance(v, ast.Call) and call_name(v) == "_is_same_origin":
-            okv = okv and norm.text(v.args[0]) == "origin_tuple" and norm.text(v.args[3]) == "self.allowedOriginsPatterns"
-        else:
-            okv = False
-    ctx.ob("server: origin allowed only by null-origin policy or _is_same_origin(origin, ..., allowedOriginsPatterns)", okv, "origin decision changed", fn.loc())
-    hv = [n for n in g.stmt_nodes() if n.kind == "stmt" and isinstance(n.ast, ast.Assign) and norm.text(n.ast.targets[0]) == "have_origin"]
-    okh = len(hv) == 2 and all((norm.text(n.ast.value) == "True") == (("in", "websocket_origin_header_key", ("e", H), True) in mf.at(n)) for n in hv)
-    ctx.ob("server: have_origin iff the origin header is present", okh, "have_origin logic changed", fn.loc())
-    trueh = [n for n in hv if norm.text(n.ast.value) == "True"]
-    if trueh:
-        ctx.ob("server: Origin header single", ("lt", ("c", 1), ("e", f"{CNT}[websocket_origin_header_key]"), False) in mf.at(trueh[0]), "duplicate Origin headers accepted", fn.loc())
-        ot = [n for n in g.stmt_nodes() if n.kind == "stmt" and isinstance(n.ast, ast.Assign) and norm.text(n.ast.targets[0]) == "origin_tuple"]
-        ctx.ob("server: origin parsed by _url_to_origin from the header", len(ot) == 1 and norm.text(ot[0].ast.value) == "_url_to_origin(self.websocket_origin)", "origin parse changed", fn.loc())
     # extensions header single
     ex = [n for n, v in find_assign_nodes(g, "websocket_extensions") if isinstance(v, ast.Call)]
     ok = len(ex) == 1 and ("lt", ("c", 1), ("e", f"{CNT}['sec-websocket-extensions']"), False) in mf.at(ex[0]) and \
@@ -261,7 +229,6 @@ def rule_client(ctx):
     if status_code.startswith("int(self.") and sl != "self.http_status_line.split()":
         status_code = f"int({sl}[1].strip())"
     got = name_for(fn, "self.http_headers['sec-websocket-accept'].strip()", canon)
-    co_flag, co_ok = _token_flag(fn, g, mf, "connection", "upgrade")
     # the expected digest: the local compared with the received one
     expected = None
     for f in F or ():
@@ -274,7 +241,6 @@ def rule_client(ctx):
         ("Upgrade header present", [("in", "'upgrade'", ("e", H), True)]),
         ("Upgrade header is websocket", [("eq", "self.http_headers['upgrade'].strip().lower()", ("c", "websocket"), True)]),
         ("Connection header present", [("in", "'connection'", ("e", H), True)]),
-        ("Connection header contains upgrade", [("truth", co_flag or "?", None, True)]),
         ("Sec-WebSocket-Accept present", [("in", "'sec-websocket-accept'", ("e", H), True)]),
         ("Sec-WebSocket-Accept single", [("lt", ("c", 1), ("e", f"{CNT}['sec-websocket-accept']"), False)]),
     ]
@@ -283,8 +249,6 @@ def rule_client(ctx):
     ctx._c07_expected_digest = expected
     for name, facts in obligations:
         ctx.ob(f"client: {name}", _has(F, *facts), f"state = OPEN is reachable without `{name}` having been established", fn.loc(A.ast))
-    ctx.ob("client: a flag is set only for an 'upgrade' token of the connection header", co_flag is not None and co_ok,
-           "no sound computation of \"connection header contains upgrade\" found", fn.loc())
     # extensions: each one known, not repeated, parsed ok, accepted
     loops = [n for n in g.stmt_nodes() if n.kind == "for" and norm.text(n.ast.iter) == "websocket_extensions"]
     ctx.require(len(loops) == 1, "client: extension loop not found")
@@ -331,16 +295,7 @@ def rule_client(ctx):
     ctx.ob("client: the list the selected subprotocol is checked against is the list it actually sent", ok and hdr_from and checked in sent_attr,
            f"selection checked against `{checked}`, but the Sec-WebSocket-Protocol header is built from `{RO}.protocols` (stored as {sent_attr or 'nothing'}): with request "
            f"options from onConnecting() a subprotocol that was never offered is accepted", fn.loc())
-    # the key the accept digest is computed from exists whenever a response is judged
-    cm = ctx.program.func(f"{WSC}._connectionMade")
-    init_key = any(isinstance(s_, ast.Assign) and is_self_attr(s_.targets[0], "websocket_key") and isinstance(s_.value, ast.Constant) and s_.value.value is None for s_ in walk_no_defs(cm.node))
-    uses = [n for n in g.stmt_nodes() if n.ast is not None and not isinstance(n.ast, (ast.FunctionDef, ast.AsyncFunctionDef)) and
-            any(isinstance(x, ast.Attribute) and norm.text(x) == "self.websocket_key" and isinstance(x.ctx, ast.Load) for x in ast.walk(n.ast)) and
-            not (n.kind == "test" and norm.atoms(n.ast, True, res) in ([("is", "self.websocket_key", ("c", None), True)], [("is", "self.websocket_key", ("c", None), False)]))]
-    okk = init_key and bool(uses) and all(norm.not_none_known(mf.at(n), "self.websocket_key") for n in uses)
-    ctx.ob("client: a response is judged only after the request (and its key) went out -- a response arriving earlier fails the handshake", okk,
-           "processHandshake reads self.websocket_key although no request may have been sent yet (onConnecting() still pending): AttributeError / TypeError "
-           "escapes to the networking framework instead of failing the handshake", fn.loc())
+    # "a response is judged only after the request (and its key) went out" is decided by the history cell of c07_cells (response first)
     for n in g.stmt_nodes():
         for c in node_calls(n):
             if self_call(c, "failHandshake"):
@@ -350,6 +305,20 @@ def rule_client(ctx):
         f2 = ctx.program.func(q)
         g2, mf2, res2 = an.get(f2)
         ctx.ob(f"{q} always reaches {must}", g2.always_followed_by(g2.entry, lambda x: any(self_call(c, must) for c in node_calls(x))), "failure path changed", f2.loc())
+
+
+def _inline_priv(ctx, clsq):
+    """TermEval inliner: private helpers of the protocol class are part of the computation (sinks and hooks stay observable calls)"""
+    from .c07_cells import SINKS
+    cls = ctx.program.cls(clsq)
+
+    def inl(call, f):
+        fu = call.func
+        if isinstance(fu, ast.Attribute) and isinstance(fu.value, ast.Name) and fu.value.id == "self" and fu.attr.startswith("_") and not fu.attr.startswith("__") \
+                and fu.attr not in SINKS:
+            return ctx.program.lookup_method(cls, fu.attr)
+        return None
+    return inl
 
 
 def rule_digest(ctx):
@@ -374,7 +343,7 @@ def rule_digest(ctx):
     # client: the received Sec-WebSocket-Accept is compared with base64(SHA-1(own key + GUID)); inequality fails the handshake
     fn = ctx.program.func(f"{WSC}.processHandshake")
     ctx.analysed(fn)
-    te = TermEval(ctx.program, fn, inline=lambda c, f: None).run()
+    te = TermEval(ctx.program, fn, inline=_inline_priv(ctx, WSC)).run()
     want = digest_of(("attr", SELF, "websocket_key"))
     cmps = []
     for o in te.outcomes:
@@ -402,7 +371,7 @@ def rule_digest(ctx):
     # server: the response carries "Sec-WebSocket-Accept: " + base64(SHA-1(stored key + GUID))
     fn = ctx.program.func(f"{WSS}.succeedHandshake")
     ctx.analysed(fn)
-    te = TermEval(ctx.program, fn, inline=lambda c, f: None).run()
+    te = TermEval(ctx.program, fn, inline=_inline_priv(ctx, WSS)).run()
     want = digest_of(("enc", "utf8", ("attr", SELF, "_wskey")))
     want2 = digest_of(("enc", "ascii", ("attr", SELF, "_wskey")))
     found, bad = 0, []
@@ -688,7 +657,12 @@ def rule_escape(ctx):
 
 def run(ctx):
     rule_server(ctx)
+    from .c07_cells import rule_server_cells, rule_header_lines
+    rule_header_lines(ctx)
+    rule_server_cells(ctx)
     rule_client(ctx)
+    from .c07_cells import rule_client_cells
+    rule_client_cells(ctx)
     rule_digest(ctx)
     rule_origin(ctx)
     rule_answer_subset(ctx)
